@@ -152,7 +152,7 @@ def pkgo_d(lines):
     ann = []
     for l in lines:
         ann.append("// @packageonly" + ((" " + ", ".join(l)) if l else ""))
-    ls = ["package d", "", "// PT is restricted."] + ann + ["type PT struct{ X int }", "",
+    ls = ["package d", "", "type (", "\t// PT is restricted."] + ["\t" + a for a in ann] + ["\tPT struct{ X int }", "\tPG struct{ X int }", ")", "",
           "// PT2 is restricted to d.", "// @packageonly", "type PT2 struct{ X int }", "", "type S struct{}", "",
           "// PF is restricted."] + ann + ["func PF(n int) int { return n }", "", "// PM is restricted."] + ann + \
          ["func (s S) PM(n int) int { return n }", "", "// Q and QF are not annotated.", "type Q struct{ X int }", "",
@@ -219,6 +219,8 @@ def build_pkgo(sc, sid):
                 "methCallS2": "_ = z%d.PM(%d)" % (n, n),
                 "chainCall": "_ = %sNewPS().PSM(%d)" % (q, n),
                 "aliasPlain": "var v%d Hdr" % n,
+                "mapKeyCall": "_ = map[int]int{%sPF(%d): 1}" % (q, n),
+                "typeLitPG": "_ = %sPG{X: %d}" % (q, n),
                 "typeVarHidden": "var v%d %sState" % (n, q),
                 "methCallPromoted": "_ = e%d.PM(%d)" % (n, n),
                 "methValuePromoted": "f%d := e%d.PM" % (n, n),
